@@ -331,6 +331,7 @@ static int rec_io = 0;
 #define MAXOPEN 256
 static FILE *open_f[MAXOPEN];
 static char *open_p[MAXOPEN];
+static locale_t thread_loc; static char *thread_name, *glob_name;
 static long long wdev_cap = -1; static int wdev_fsync_fails, wdev_close_fails, wdev_open_fails, wdev_active;
 static FILE *wdev_stream;
 int __real_fsync(int fd);
@@ -528,6 +529,8 @@ static int run_line(char *line)
     if(live) { config_destroy(&cfg); live = 0; }
     evlen = 0;
     strings_ok = 1;
+    if(thread_loc) { uselocale(LC_GLOBAL_LOCALE); freelocale(thread_loc); thread_loc = (locale_t)0; free(thread_name); thread_name = NULL; }
+    if(glob_name) { setlocale(LC_ALL, "C"); free(glob_name); glob_name = NULL; }
     fprintf(out, "C %s\n", tok[1]);
     return 0;
   }
@@ -815,6 +818,43 @@ static int run_line(char *line)
     for(size_t i = 0; i < len; i++) fprintf(out, "%02x", (unsigned char)buf[i]);
     fputc('\n', out);
     free(buf);
+    return 0;
+  }
+  if(n == 3 && IS("locale"))
+  {
+    char *nm = parse_hs(tok[2], NULL);
+    if(!strcmp(tok[1], "global"))
+    {
+      if(!setlocale(LC_ALL, nm ? nm : "C")) { fputs("R locale-unavailable\n", out); free(nm); return 0; }
+      free(glob_name); glob_name = strdup(nm ? nm : "C");
+    }
+    else
+    {
+      if(thread_loc) { uselocale(LC_GLOBAL_LOCALE); freelocale(thread_loc); thread_loc = (locale_t)0; free(thread_name); thread_name = NULL; }
+      if(nm)
+      {
+        thread_loc = newlocale(LC_ALL_MASK, nm, (locale_t)0);
+        if(!thread_loc) { fputs("R locale-unavailable\n", out); free(nm); return 0; }
+        uselocale(thread_loc);
+        thread_name = strdup(nm);
+      }
+    }
+    free(nm);
+    r_unit(); return 0;
+  }
+  if(n == 1 && IS("locq"))
+  {
+    /* what the caller sees: global locale name, identity of the thread locale, radix of the caller's printf */
+    char b[32];
+    locale_t cur = uselocale((locale_t)0);
+    snprintf(b, sizeof b, "%.1f", 1.5);
+    fputs("R loc ", out); put_hs(glob_name ? glob_name : "C"); fputc(' ', out);
+    if(cur == LC_GLOBAL_LOCALE) fputc('-', out);
+    else if(cur == thread_loc) put_hs(thread_name);
+    else fputs("OTHER", out);
+    fprintf(out, " %d\n", (int)(unsigned char)b[1]);
+    /* the global locale string must also be what was set */
+    if(strcmp(setlocale(LC_NUMERIC, NULL), glob_name ? glob_name : "C") != 0) fputs("L GLOBAL-LOCALE-CHANGED\n", out);
     return 0;
   }
   if(n == 5 && IS("wdev"))
